@@ -38,6 +38,10 @@ impl tower::Service<http::request::Parts> for RouteTransport {
     }
 }
 
+pub fn route(a: DuplexClient, b: DuplexClient, bufsize: usize) -> RouteTransport {
+    RouteTransport { a, b, bufsize }
+}
+
 #[derive(Clone, Debug, PartialEq, Eq)]
 pub struct ReqSpec {
     pub id: u32,
